@@ -15,6 +15,16 @@ pub fn run(ctx: &Ctx) -> Outcome {
         acc.merge(diff::run(ctx, &cfg, &sp2.patterns, &spaces::texts_c01(4)));
         describe.push_str(&format!(" x texts<=3; plus [{}] x texts<=4", sp2.describe));
     }
+    // longer seeded random texts (5-10 characters) on the random trees: backtracking depth and
+    // delegate/VM hand-overs that the exhaustive short texts cannot reach
+    {
+        let rnd = crate::gen::random_patterns(ctx.seed ^ 0x10E6, ctx.tier.pick(2_000, 40_000), false, 6, 14);
+        let long = crate::gen::random_texts(ctx.seed, &crate::gen::ALPHA_C01, ctx.tier.pick(12, 40), 5, 10);
+        let a3 = diff::run(ctx, &cfg, &rnd, &long);
+        acc.add("long-text-evaluations", a3.evals);
+        acc.merge(a3);
+        describe.push_str(&format!("; plus {} seeded random trees x {} seeded random texts of 5-10 characters", rnd.len(), long.len()));
+    }
     diff::run_witnesses(ctx, "C02", "F1", &mut acc);
     let mut out = Outcome::new(acc);
     out.distinct_nontrivial = out.acc.distinct;
